@@ -156,7 +156,7 @@ def run(ctx):
             "events_by_type": stats,
             "spec_variants_distinguishing_cases": dist,
             "discrepancies_attributed_to_other_properties": others,
-            "max_tuple_arity_histogram": arities,
+            "cases_containing_a_tuple_of_arity": arities,
             "engine_wall_s": float(summary["wall_s"]),
             "build_s": round(build_s, 2),
         }
